@@ -414,13 +414,25 @@ def r05c(P, R):
         adt = TS + posn
         for c in calls:
             own = pv.params.get(f.params[0].get("local"))
-            ok = has_field(pv.atoms(c["args"][1]), adt, "name") and has_field(pv.atoms(c["args"][2]), adt, "fields") and has_field(pv.atoms(c["args"][3]), adt, "implements")
+            # the arguments that describe the *implementing* type are all but the definitions map, the looked-up interface and the
+            # diagnostics sink (roles by the callee's parameter types); they may be separate components or one context value
+            cvi = P.fns.get(call_name(c))
+            ptys = [peel_ty(t) for t in (cvi.sig_inputs if cvi is not None else [])]
+            side = [i for i, t in enumerate(ptys) if i < len(c["args"]) and t != TS + "InterfaceTypeDefinition" and "DefinitionMap" not in t
+                    and not t.startswith("alloc::vec::Vec<")]
+            if not side:
+                R.undecided("R05-c", "implementation-args:" + name, "the arguments describing the implementing type were not identified", loc=f.loc())
+                continue
             # ... of the type being checked (first parameter), not of a definition looked up in the schema
-            for ai in (1, 2, 3):
-                ps = {x[1] for x in pv.data_atoms(c["args"][ai]) if x[0] == "param"}
-                ok = ok and ps == {own}
+            foreign = [i for i in side if {x[1] for x in pv.data_atoms(c["args"][i]) if x[0] == "param"} != {own}]
+            named = set()
+            for i in side:
+                named |= {x[2] for x in pv.atoms(c["args"][i]) if x[0] == "field" and x[1] == adt}
+            # components passed one by one must be the three the rule speaks about; a context value built elsewhere is typed
+            ok = not foreign and (not named or {"name", "fields", "implements"} <= named)
             R.check("R05-c", "implementation-args:" + name, ok, "(name, fields, implements) of the implementing type",
-                    "%s passes the wrong components to check_valid_implementation" % f.path, loc=f.loc())
+                    "%s passes the wrong components to check_valid_implementation (argument(s) %s are not taken from the type being checked, "
+                    "or not its name/fields/implements)" % (f.path, foreign or sorted(named)), loc=f.loc())
         # every name in `implements` that is unknown / not an interface is reported: inside the loop over `implements`
         loops = [m for m in f.walk() if m.get("k") == "Match" and m.get("src") == "ForLoopDesugar"
                  and (call_name(m["scrut"]) or "").endswith("IntoIterator::into_iter") and has_field(pv.atoms(m["scrut"]), adt, "implements")]
@@ -436,6 +448,7 @@ def r05d(P, R):
     _guarded(R, "R05-d", "anchor:traversal", _r05d_cover, P, R)
     _guarded(R, "R05-d", "anchor:recursion-follows", _r05d_follow, P, R)
     _guarded(R, "R05-d", "anchor:recursion-edges", _r05d_edges, P, R)
+    _guarded(R, "R05-d", "anchor:every-element", _r05d_every, P, R)
 
 
 def _r05d_cover(P, R):
@@ -488,6 +501,93 @@ def _r05d_edges(P, R):
     ok = has_field(a, TS + "InputValueDefinition", "directives") and has_field(a, TS + "InputValueDefinition", "type") and has_call(a, "directives_in_type")
     R.check("R05-d", "recursion-edges", ok, "edges: argument directives and directives in the argument's type",
             "check_directive_recursion does not follow both the argument's own directives and its type's directives", loc=cr.loc())
+
+
+def _r05d_every(P, R):
+    """LOSSLESS TRAVERSAL.  The checker's `for` loops visit the elements the rules quantify over ("every definition", "every field
+    of the interface", ...).  On the reference tree an element leaves an iteration early (`continue`, `break`, `return`) only on a
+    path that reports a diagnostic about it — it is skipped *because* it is invalid.  An early exit guarded by a boolean test of the
+    element's content that reports nothing makes every rule below it conditional on that content: VIOLATED.  An exit guarded by a
+    pattern that extracts what the rest of the body needs (`let Some(x) = .. else { continue }`) without a report is UNDECIDED."""
+    from templates import LOSSY_OR_REORDERING
+    fns = [P.fns[p] for p in scope(P) if P.fns[p].crate == CHK and P.fns[p].kind in ("Fn", "AssocFn")]
+    rep = {}
+
+    def reports(path):
+        if path not in rep:
+            g = P.fns.get(path)
+            rep[path] = g is not None and g.crate == CHK and any(
+                diag_sites(P.fns[q].walk()) for q in P.reachable([g]) if P.fns[q].crate == CHK and not P.fns[q].derived)
+        return rep[path]
+
+    def reporting(node):
+        ns = subnodes(node) if node is not None else []
+        return bool(diag_sites(ns)) or any(reports(call_name(x)) for x in ns if x.get("k") in ("Call", "MethodCall") and call_name(x))
+
+    n_loops = 0
+    for f in fns:
+        acc = f.nodes()
+        for i, (x, _) in enumerate(acc):
+            k = x.get("k")
+            if k == "Loop" and x.get("src") == "ForLoop":
+                n_loops += 1
+            if k not in ("Continue", "Break", "Ret") or str(x.get("x", "")).startswith("desugar"):
+                continue
+            ctx = enclosing_contexts(f, i)
+            li = next((j for j, c in enumerate(ctx) if c[0] == "loop"), None)
+            if li is None or ctx[li][1].get("src") != "ForLoop" or any(c[0] == "closure" for c in ctx[:li]):
+                continue
+            guards = [c for c in ctx[:li] if c[0] in ("if-then", "if-else", "let-else")
+                      or (c[0] == "arm" and c[1] is not None and not str(c[1].get("src", "")).startswith(("ForLoop", "TryDesugar")))]
+            if not guards:
+                continue
+            loop_elem = ""
+            for c in ctx[li:]:
+                if c[0] == "arm" and c[1] is not None and c[1].get("src") == "ForLoopDesugar":
+                    loop_elem = norm(c[1]["scrut"].get("t", "")) or ""
+                    break
+            key = "every-element:%s:%s@%d" % (short(f.path), k.lower(), sum(1 for y, _ in acc[:i] if y.get("k") == k))
+            ok = False
+            for g in guards:
+                branch = g[2]["body"] if g[0] == "arm" else (g[1].get("then") if g[0] == "if-then" else g[1].get("else") if g[0] == "if-else" else g[1].get("els"))
+                guard = g[1]["scrut"] if g[0] == "arm" else (g[1].get("cond") if g[0].startswith("if") else g[1].get("init"))
+                if reporting(branch) or reporting(guard):
+                    ok = True
+                    break
+            if ok:
+                R.holds("R05-d", key, "the element is skipped on a path that reports a diagnostic", loc=f.loc())
+                continue
+            g = guards[0]
+            cond = g[1].get("cond") if g[0].startswith("if") else None
+            boolean = cond is not None and not any(y.get("k") == "LetExpr" for y in subnodes(cond))
+            # `x.is_none()` / `xs.is_empty()` is a pattern test in boolean clothing: nothing to apply the rest of the body to
+            c0 = cond
+            while c0 is not None and c0.get("k") in ("DropTemps", "Paren", "Unary", "Use") and "e" in c0:
+                c0 = c0["e"]
+            if boolean and c0 is not None and c0.get("k") == "MethodCall" and c0.get("method") in ("is_none", "is_some", "is_empty"):
+                boolean = False
+            what = sorted({y["field"] for y in subnodes(cond or {}) if y.get("k") == "Field"}
+                          | {short(call_name(y)) for y in subnodes(cond or {}) if y.get("k") in ("Call", "MethodCall") and (call_name(y) or "").startswith(CK)})
+            if boolean:
+                R.violated("R05-d", key, "%s leaves an iteration of its loop over %s early (`%s`) under a condition on %s and reports nothing: "
+                           "every rule applied further down the loop body is skipped for those elements" % (f.path, loop_elem or "its elements", k.lower(), what or "the element"),
+                           loc=f.loc())
+            else:
+                R.undecided("R05-d", key, "%s leaves an iteration early when a pattern does not match, without a diagnostic; whether a rule "
+                            "applied to the skipped elements is not decided" % f.path, loc=f.loc())
+    R.floor("R05-d", "`for` loops in the type-system checker", n_loops, 10)
+    # the dispatch loop visits every definition of the document: no selecting / truncating adaptor on the iterated expression
+    e = entry(P)
+    ei = inlined(P, e, pred=_positions(P)["pred"])
+    pv = Prov(ei)
+    loops = [m for m in ei.walk() if m.get("k") == "Match" and m.get("src") == "ForLoopDesugar" and (call_name(m["scrut"]) or "").endswith("IntoIterator::into_iter")
+             and has_field(pv.atoms(m["scrut"]), TS + "TypeSystemDocument", "definitions")]
+    if not loops:
+        R.undecided("R05-d", "every-definition", "no `for` loop over `TypeSystemDocument.definitions` on the path from %s" % e.path, loc=e.loc())
+    for m in loops:
+        bad = [y["method"] for y in subnodes(m["scrut"]) if y.get("k") == "MethodCall" and y["method"] in (LOSSY_OR_REORDERING | {"filter", "filter_map"})]
+        R.check("R05-d", "every-definition", not bad, "the dispatch loop iterates over all definitions",
+                "%s iterates over the definitions through %s: definitions it drops are never checked" % (e.path, bad), loc=e.loc())
 
 
 # diagnostics tied to a position: how many construction sites each position's region had on the reference tree
@@ -616,7 +716,7 @@ def _r05f_impl(P, R):
     """interface implementation rules: reachability, recursion discipline, and what each sub-rule is conditional on"""
     cvi = P.fn(CK + "type_system_checker::interfaces::check_valid_implementation")
     sub = P.fn(CK + "types::is_subtype")
-    R.check("R05-f", "covariance-reach", sub.path in P.callees_of(cvi)[0], "field types are compared with is_subtype",
+    R.check("R05-f", "covariance-reach", sub.path in P.reachable([cvi]), "field types are compared with is_subtype",
             "check_valid_implementation no longer uses is_subtype for the covariant return type rule", loc=cvi.loc())
     n = recursion_discipline(P, R, "R05-f", [sub, P.fn("nitrogql_ast::type::Type::is_same")])
     R.floor("R05-f", "recursive argument positions", n, 6)
@@ -655,14 +755,21 @@ def _r05f_impl(P, R):
                 "is_subtype compares a %s sub-type against the super-type with its NonNull wrapper removed: a nullable (list) type is accepted "
                 "where the interface demands a non-null one" % "/".join(sorted(v)), loc=sub.loc())
     R.floor("R05-f", "uses of the stripped super-type", stripped_uses, 1)
+    cvi = inlined(P, cvi, pred=lambda g, stop=(sub.path,): g.path not in stop)
     pv = Prov(cvi)
-    # is_subtype(field type, interface field type) in this order; violation only on Some(false)
+    # is_subtype(field type, interface field type) in this order; violation only on Some(false).  The interface side is the
+    # parameter of type &InterfaceTypeDefinition; everything else describes the implementing type.
     calls = [c for c in cvi.walk() if c.get("k") == "Call" and call_name(c) == sub.path]
     R.floor("R05-f", "is_subtype calls", len(calls), 1)
     IFACE = TS + "InterfaceTypeDefinition"
+    iface = [pv.params.get(p.get("local")) for p, t in zip(cvi.params, cvi.sig_inputs) if peel_ty(t) == IFACE and p.get("k") == "Binding"]
     for c in calls:
         a1, a2 = pv.data_atoms(c["args"][1]), pv.data_atoms(c["args"][2])
-        ok = ("param", "fields") in a1 and not has_field(a1, IFACE, "fields") and has_field(a2, IFACE, "fields")
+        if len(iface) != 1:
+            R.undecided("R05-f", "covariance-direction", "the interface parameter of %s was not identified" % cvi.path, loc=cvi.loc())
+            continue
+        p1, p2 = {x[1] for x in a1 if x[0] == "param"}, {x[1] for x in a2 if x[0] == "param"}
+        ok = iface[0] not in p1 and bool(p1) and iface[0] in p2 and has_field(a2, IFACE, "fields")
         R.check("R05-f", "covariance-direction", ok, "is_subtype(implementing field type, interface field type)",
                 "is_subtype is called with the interface's field type as the sub-type (direction of covariance reversed)", loc=cvi.loc())
     # argument invariance uses is_same
